@@ -32,6 +32,29 @@ ASSUMPTIONS = [
 ]
 
 
+def _waiter_key(fn: ast.FunctionDef, msg: str):
+    """(key text as written, resolved key text with the message variable normalised, header
+    fields it mentions) of the expression that indexes self._answer_waiting in *fn*."""
+    keys = []
+    for n in A.walk_no_nested(fn):
+        if isinstance(n, ast.Subscript) and A.dotted(n.value) == "self._answer_waiting":
+            keys.append(n.slice)
+        elif isinstance(n, ast.Compare) and len(n.ops) == 1 and isinstance(n.ops[0], (ast.In, ast.NotIn)) \
+                and A.dotted(n.comparators[0]) == "self._answer_waiting":
+            keys.append(n.left)
+        elif isinstance(n, ast.Call) and isinstance(n.func, ast.Attribute) and n.func.attr in ("pop", "get") \
+                and A.dotted(n.func.value) == "self._answer_waiting" and n.args:
+            keys.append(n.args[0])
+    texts = {ast.unparse(k) for k in keys}
+    if len(texts) != 1:
+        return None, None, set(), sorted(texts)
+    k = keys[0]
+    res = A.resolve_local_chain(fn, k).replace(msg + ".", "<msg>.")
+    fields = {f_ for f_ in ("hop_by_hop_identifier", "end_to_end_identifier")
+              if f"<msg>.header.{f_}" in res}
+    return ast.unparse(k), res, fields, sorted(texts)
+
+
 def run(ctx: Ctx):
     model = ctx.model
     nc = model.cls("node.node", "Node")
@@ -319,7 +342,16 @@ def run(ctx: Ctx):
         gr = cfg_of(ra)
         atr = Atomizer(model, ra.module, app_cls)
         rmsg = [a.arg for a in ra.node.args.args][1]
-        key = f"{rmsg}.header.hop_by_hop_identifier"
+        key, rkey_res, rfields, rtexts = _waiter_key(ra.node, rmsg)
+        if key is None:
+            ctx.fail(cons + "#key", ra.loc(), f"receive_answer indexes the waiter table with several "
+                     f"different keys: {rtexts}")
+            key = f"{rmsg}.header.hop_by_hop_identifier"
+        elif rfields != {"hop_by_hop_identifier", "end_to_end_identifier"}:
+            ctx.fail(cons + "#key", ra.loc(), f"waiters are looked up under `{rkey_res}`: hop-by-hop "
+                     f"identifiers are unique per connection only, so two requests outstanding on "
+                     f"two connections can carry the same one - the answer to one wakes the sender of "
+                     f"the other (both identifiers are needed)")
         sets = [n for n in gr.nodes if n.kind == "stmt" and any(A.call_name(c).endswith(".event.set") for c in n.calls())]
         ans = [n for n in gr.nodes if n.kind == "stmt" and isinstance(n.ast, ast.Assign)
                and any(A.dotted(t).endswith(".answer") for t in n.ast.targets)]
@@ -348,7 +380,10 @@ def run(ctx: Ctx):
     ctx.use(sr)
     gs = cfg_of(sr)
     smsg = [a.arg for a in sr.node.args.args][1]
-    key = f"{smsg}.header.hop_by_hop_identifier"
+    key, skey_res, sfields, stexts = _waiter_key(sr.node, smsg)
+    if key is None:
+        key = f"{smsg}.header.hop_by_hop_identifier"
+        skey_res = None
     reg = [n for n in gs.nodes if n.kind == "stmt" and isinstance(n.ast, ast.Assign) and any(
         isinstance(t, ast.Subscript) and A.dotted(t.value) == "self._answer_waiting" for t in n.ast.targets)]
     sends = [n for n in gs.nodes if n.has_call("send_message")]
@@ -362,8 +397,13 @@ def run(ctx: Ctx):
             ctx.fail(cons, gs.loc(sends[0]), "the request is handed to the connection before the "
                      "waiter is registered: an answer that arrives quickly finds nobody waiting, is "
                      "passed to handle_answer, and the sender times out")
-        if ast.unparse(reg[0].ast.targets[0].slice) != key:
-            ctx.fail(cons + "#key", gs.loc(reg[0]), "the waiter is not registered under the request's hop-by-hop id")
+        if skey_res is None or sfields != {"hop_by_hop_identifier", "end_to_end_identifier"}:
+            ctx.fail(cons + "#key", gs.loc(reg[0]), f"the waiter is registered under `{skey_res or stexts}`, "
+                     f"not under the request's hop-by-hop and end-to-end identifiers (hop-by-hop ids "
+                     f"are unique per connection only)")
+        elif ra is not None and rkey_res != skey_res:
+            ctx.fail(cons + "#key", gs.loc(reg[0]), f"the waiter is registered under `{skey_res}` but "
+                     f"receive_answer looks it up under `{rkey_res}`")
         if not gs.dominated(reg[0], routes):
             ctx.fail(cons + "#route", gs.loc(reg[0]), "the waiter is registered before the hop-by-hop "
                      "id has been assigned by route_request")
